@@ -262,7 +262,29 @@ def emit_block(stmts, ind):
     return out
 
 
-def translate_function(src, name):
+def rename_locals(stmts):
+    """alpha-rename the single-assignment locals to v1, v2, … in order of assignment (per branch), so that renamed C locals give the
+    same Lean text"""
+    def sub(text, ren):
+        return re.sub(r"\b[A-Za-z_]\w*\b", lambda m: ren.get(m.group(0), m.group(0)) if not text[max(0, m.start() - 2):m.start()].endswith("E.") else m.group(0), text)
+
+    def go(stmts, ren):
+        ren = dict(ren)
+        out = []
+        for st in stmts:
+            if st[0] == "let":
+                e = (sub(st[2][0], ren), st[2][1])
+                ren[st[1]] = "v%d" % (len(ren) + 1)
+                out.append(("let", ren[st[1]], e))
+            elif st[0] == "ret":
+                out.append(("ret", (sub(st[1][0], ren), st[1][1])))
+            elif st[0] == "if":
+                out.append(("if", st[1], go(st[2], ren), go(st[3], ren)))
+        return out
+    return go(stmts, {})
+
+
+def translate_function(src, name, lean_name=None):
     params_s, body = find_function(src, name)
     params = {}
     order = []
@@ -286,10 +308,11 @@ def translate_function(src, name):
         body = body[m.end():]
     ps = Parser(tokenize(body), params, locals_)
     stmts = ps.block(set())
+    stmts = rename_locals(stmts)
     if ps.peek() != (None, None):
         raise Unsupported("%s: trailing tokens" % name)
     sig = " ".join("(%s : %s)" % (p, "α" if params[p] == "double" else "Int") for p in order)
-    lines = ["def %s (E : ThermalEnv α) %s : α :=" % (name, sig)] + emit_block(stmts, 1)
+    lines = ["def %s (E : ThermalEnv α) %s : α :=" % (lean_name or name, sig)] + emit_block(stmts, 1)
     return "\n".join(lines), ps.ints
 
 
@@ -654,6 +677,648 @@ def translate_procedure(src, name, known):
     return pp, struct, top, out
 
 
+# ----------------------------------------------------------------------------- canonical procedure translation (AST based)
+#
+# The loop nest is translated through an abstract syntax tree that is NORMALISED before it is printed, so that
+# behaviour-preserving rewrites of the C text give the same Lean term:
+#   * static functions are found through the call graph from the public entry point (the mode function whose value is added
+#     to slot 0 / 1 / 2 of the output block is printed as get_free_energy / get_entropy / get_heat_capacity whatever its C name);
+#   * `static void` helpers are inlined at their call sites (pointer arguments `base + offset`, scalar arguments, casts);
+#   * const / pointer / scalar locals that are assigned a pure expression are substituted (`f = freqs[...]`, `t = temperatures[j]`,
+#     `fsc = tp_q + 3*j`, `const int64_t block = 3*num_temp`); scalar locals never enter the state record;
+#   * `if (!(c)) continue;` guards the rest of the loop body; an `if` whose body is a single `for` not binding a variable of the
+#     condition is pushed into the loop; nested `if`s are merged into one conjunction (in source order);
+#   * integer index expressions are printed in a polynomial normal form (loop variables outermost first, then size parameters
+#     in signature order, numeric coefficient last; higher-degree terms first, constant last);
+#   * loop variables are renamed by nesting depth (i, j, k, l3, …), malloc'd arrays by order of allocation (buf0, buf1, …);
+#   * `#pragma omp parallel for [private(...)]` is dropped (sequential semantics), malloc'd contents are a parameter.
+# Anything outside the subset raises Unsupported (proof step broken).  NOT made canonical (these change the printed term and thus
+# lead to `no-failing-input-found` even if behaviour is preserved): a different summation order or blocking of the q-point loop,
+# loop fusion/fission, an `if` around several statements one of which is a loop, accumulation into scalar locals.
+
+LOOPVARS = ["i", "j", "k"]
+
+
+def loopvar(depth):
+    return LOOPVARS[depth] if depth < len(LOOPVARS) else "l%d" % depth
+
+
+class Poly:
+    def __init__(self, d=None):
+        self.d = {k: v for k, v in (d or {}).items() if v != 0}
+
+    @staticmethod
+    def const(n):
+        return Poly({(): n})
+
+    @staticmethod
+    def var(v):
+        return Poly({(v,): 1})
+
+    def __add__(self, o):
+        d = dict(self.d)
+        for k, v in o.d.items():
+            d[k] = d.get(k, 0) + v
+        return Poly(d)
+
+    def __mul__(self, o):
+        d = {}
+        for k1, v1 in self.d.items():
+            for k2, v2 in o.d.items():
+                k = tuple(sorted(k1 + k2))
+                d[k] = d.get(k, 0) + v1 * v2
+        return Poly(d)
+
+    def const_term(self):
+        return self.d.get((), 0)
+
+    def vars(self):
+        return {v for k in self.d for v in k}
+
+    def show(self, order):
+        """order: list of variable names, outermost loop variable first, then size parameters"""
+        rank = {v: n for n, v in enumerate(order)}
+        terms = []
+        for k, c in self.d.items():
+            if c < 0:
+                raise Unsupported("negative coefficient in an index expression")
+            ks = sorted(k, key=lambda v: rank[v])
+            terms.append((-len(ks), [rank[v] for v in ks], ks, c))
+        terms.sort(key=lambda t: (t[0], t[1]))
+        out = []
+        for _, _, ks, c in terms:
+            fac = list(ks) + ([str(c)] if (c != 1 or not ks) else [])
+            out.append(" * ".join(fac))
+        return " + ".join(out) if out else "0"
+
+
+class CanonProc:
+    def __init__(self, src, name):
+        self.src = src
+        self.name = name
+        self.calls = []  # static double functions called, in order of first call
+        self.fsig = {}
+        self.ints = set()
+        self.bufs = []  # canonical names of malloc'd arrays
+        self.bufsize = {}
+        self.slot = {}  # C function name -> set of constant index offsets its value is added at
+        params_s, body = find_procedure(src, name)
+        self.params = self.parse_params(name, params_s, public=True)
+        self.natorder = [n for n, k in self.params if k == "nat"]
+        outs = [n for n, k in self.params if k == "outarr"]
+        if len(outs) != 1:
+            raise Unsupported("%s: exactly one output array expected" % name)
+        self.out = outs[0]
+        env = dict(ints={}, ptrs={}, dbl={}, flags={}, decl_scalar=set(), decl_ptr=set(), decl_int=set(), loopdecl=set())
+        for n, k in self.params:
+            if k == "nat":
+                env["ints"][n] = Poly.var(n)
+            elif k == "outarr":
+                env["ptrs"][n] = ("out:" + n, Poly())
+            elif k == "arr":
+                env["ptrs"][n] = ("arr:" + n, Poly())
+            elif k == "iarr":
+                env["ptrs"][n] = ("iarr:" + n, Poly())
+            elif k == "double":
+                env["dbl"][n] = ("var", n)
+            elif k == "int":
+                env["flags"][n] = n
+        self.depth_names = []
+        stmts = self.parse_body(name, body, env, 0)
+        self.ast = self.norm_block(stmts)
+
+    # ---------------- signatures
+    def parse_params(self, fname, params_s, public=False):
+        out = []
+        for p in params_s.split(","):
+            p = " ".join(p.split())
+            m = re.fullmatch(r"(const )?(double|int64_t|int) ?(\*)? ?([A-Za-z_]\w*)", p)
+            if not m:
+                raise Unsupported("%s: parameter %r" % (fname, p))
+            const, ty, ptr, nm = m.groups()
+            if ptr:
+                if ty == "double":
+                    kind = "arr" if const else "outarr"
+                elif ty == "int64_t" and const:
+                    kind = "iarr"
+                else:
+                    raise Unsupported("%s: parameter %r" % (fname, p))
+            else:
+                if not const:
+                    raise Unsupported("%s: non-const scalar parameter %r" % (fname, p))
+                kind = {"double": "double", "int64_t": "nat", "int": "int"}[ty]
+            out.append((nm, kind))
+        return out
+
+    def static_def(self, fname, ret):
+        m = re.search(r"static\s+%s\s+%s\s*\(([^)]*)\)\s*\{" % (ret, re.escape(fname)), self.src)
+        if not m:
+            return None
+        i, depth = m.end(), 1
+        while depth:
+            if i >= len(self.src):
+                raise Unsupported("unbalanced braces in %s" % fname)
+            depth += {"{": 1, "}": -1}.get(self.src[i], 0)
+            i += 1
+        return m.group(1), self.src[m.end():i - 1]
+
+    # ---------------- token helpers
+    def peek(self, k=0):
+        return self.t[self.i + k] if self.i + k < len(self.t) else (None, None)
+
+    def eat(self, kind=None, val=None):
+        k, v = self.peek()
+        if (kind and k != kind) or (val is not None and v != val):
+            raise Unsupported("%s: expected %s %s, found %s %r" % (self.cur, kind, val, k, v))
+        self.i += 1
+        return v
+
+    def parse_body(self, fname, body, env, depth):
+        lines = []
+        for ln in body.split("\n"):
+            st = ln.strip()
+            if st.startswith("#"):
+                if not re.fullmatch(r"#ifdef _OPENMP|#endif|#pragma omp parallel for( private\([\w, ]*\))?", st):
+                    raise Unsupported("%s: preprocessor line %r" % (fname, st))
+                continue
+            lines.append(ln)
+        saved = (getattr(self, "t", None), getattr(self, "i", None), getattr(self, "cur", None))
+        self.t, self.i, self.cur = tokenize2("\n".join(lines)), 0, fname
+        stmts = self.block(env, depth)
+        if self.peek() != (None, None):
+            raise Unsupported("%s: trailing tokens %r" % (fname, self.peek()))
+        self.t, self.i, self.cur = saved
+        return stmts
+
+    # ---------------- integer / pointer / double expressions
+    def iexpr(self, env):
+        e = self.iterm(env)
+        while self.peek() == ("op", "+"):
+            self.eat()
+            e = e + self.iterm(env)
+        return e
+
+    def iterm(self, env):
+        e = self.iatom(env)
+        while self.peek() == ("op", "*"):
+            self.eat()
+            e = e * self.iatom(env)
+        return e
+
+    def iatom(self, env):
+        k, v = self.peek()
+        if k == "int":
+            self.eat()
+            return Poly.const(int(v))
+        if (k, v) == ("op", "("):
+            self.eat()
+            e = self.iexpr(env)
+            self.eat("op", ")")
+            return e
+        if k == "id" and v in env["ints"]:
+            self.eat()
+            return env["ints"][v]
+        raise Unsupported("%s: integer expression: unexpected %s %r" % (self.cur, k, v))
+
+    def pexpr(self, env):
+        nm = self.eat("id")
+        if nm not in env["ptrs"]:
+            raise Unsupported("%s: %r is not a known array / pointer" % (self.cur, nm))
+        root, off = env["ptrs"][nm]
+        if self.peek() == ("op", "+"):
+            self.eat()
+            off = off + self.iexpr(env)
+        return (root, off)
+
+    def dexpr(self, env):
+        e = self.dterm(env)
+        while self.peek() in (("op", "+"), ("op", "-")):
+            op = self.eat()
+            e = ("bin", op, e, self.dterm(env))
+        return e
+
+    def dterm(self, env):
+        e = self.dunary(env)
+        while self.peek() in (("op", "*"), ("op", "/")):
+            op = self.eat()
+            e = ("bin", op, e, self.dunary(env))
+        return e
+
+    def dunary(self, env):
+        if self.peek() == ("op", "-"):
+            self.eat()
+            return ("neg", self.dunary(env))
+        return self.datom(env)
+
+    def datom(self, env):
+        k, v = self.peek()
+        if k == "int":
+            self.eat()
+            self.ints.add(int(v))
+            return ("num", int(v))
+        if (k, v) == ("op", "("):
+            if self.peek(1) == ("id", "double") and self.peek(2) == ("op", ")"):
+                self.eat(); self.eat(); self.eat()  # (double) cast: the promoted value
+                return self.dunary(env)
+            self.eat()
+            e = self.dexpr(env)
+            self.eat("op", ")")
+            return e
+        if k != "id":
+            raise Unsupported("%s: double expression: unexpected %s %r" % (self.cur, k, v))
+        if v in env["ptrs"] and self.peek(1) == ("op", "["):
+            self.eat()
+            self.eat()
+            ix = self.iexpr(env)
+            self.eat("op", "]")
+            root, off = env["ptrs"][v]
+            return ("idx", root, off + ix)
+        if self.peek(1) == ("op", "("):
+            self.eat()
+            d = self.static_def(v, "double")
+            if d is None:
+                raise Unsupported("%s: call of %r (not a static double function of this file)" % (self.cur, v))
+            if v not in self.fsig:
+                self.fsig[v] = [kd for _, kd in self.parse_params(v, d[0])]
+                self.calls.append(v)
+            self.eat()
+            args = []
+            for n, pk in enumerate(self.fsig[v]):
+                if n:
+                    self.eat("op", ",")
+                if pk == "double":
+                    args.append(self.dexpr(env))
+                elif pk == "int":
+                    a = self.eat("id")
+                    if a not in env["flags"]:
+                        raise Unsupported("%s: int argument %r of %s" % (self.cur, a, v))
+                    args.append(("flag", env["flags"][a]))
+                else:
+                    raise Unsupported("%s: parameter kind %s of %s" % (self.cur, pk, v))
+            self.eat("op", ")")
+            return ("call", v, args)
+        if v in env["dbl"]:
+            self.eat()
+            return env["dbl"][v]
+        if v in env["decl_scalar"]:
+            raise Unsupported("%s: scalar local %r read before assignment in this block" % (self.cur, v))
+        raise Unsupported("%s: unknown identifier %r in double expression" % (self.cur, v))
+
+    def cmp(self, env):
+        a = self.dexpr(env)
+        k, op = self.peek()
+        if (k, op) not in (("op", ">"), ("op", "<")):
+            raise Unsupported("%s: comparison operator %r" % (self.cur, op))
+        self.eat()
+        b = self.dexpr(env)
+        return ("lt", b, a) if op == ">" else ("lt", a, b)
+
+    def cond(self, env):
+        cs = [self.cmp(env)]
+        while self.peek() == ("op", "&&"):
+            self.eat()
+            cs.append(self.cmp(env))
+        return cs
+
+    @staticmethod
+    def reads_mutable(e):
+        if e[0] == "idx":
+            return e[1].startswith(("out:", "loc:"))
+        if e[0] == "bin":
+            return CanonProc.reads_mutable(e[2]) or CanonProc.reads_mutable(e[3])
+        if e[0] == "neg":
+            return CanonProc.reads_mutable(e[1])
+        if e[0] == "call":
+            return any(a[0] != "flag" and CanonProc.reads_mutable(a) for a in e[2])
+        return False
+
+    # ---------------- statements
+    def block(self, env, depth):
+        env = dict(env, ints=dict(env["ints"]), ptrs=dict(env["ptrs"]), dbl=dict(env["dbl"]), decl_scalar=set(env["decl_scalar"]),
+                   decl_ptr=set(env["decl_ptr"]), decl_int=set(env["decl_int"]), loopdecl=set(env["loopdecl"]))
+        out = []
+        while True:
+            k, v = self.peek()
+            if k is None or (k, v) == ("op", "}"):
+                return self.apply_guards(out)
+            # ---- declarations
+            if k == "id" and v in ("const", "int64_t", "double"):
+                const = False
+                if v == "const":
+                    self.eat()
+                    const = True
+                ty = self.eat("id")
+                if ty not in ("int64_t", "double"):
+                    raise Unsupported("%s: declaration of type %r" % (self.cur, ty))
+                while True:
+                    ptr = False
+                    if self.peek() == ("op", "*"):
+                        self.eat()
+                        ptr = True
+                    nm = self.eat("id")
+                    if self.peek() == ("op", "="):
+                        self.eat()
+                        if ty == "int64_t" and not ptr:
+                            env["ints"][nm] = self.iexpr(env)
+                        elif ty == "double" and ptr:
+                            env["ptrs"][nm] = self.pexpr(env)
+                        elif ty == "double":
+                            e = self.dexpr(env)
+                            if self.reads_mutable(e):
+                                raise Unsupported("%s: scalar %r initialised from a mutable array" % (self.cur, nm))
+                            env["dbl"][nm] = e
+                        else:
+                            raise Unsupported("%s: initialised declaration of %r" % (self.cur, nm))
+                    else:
+                        if const:
+                            raise Unsupported("%s: const %r without initialiser" % (self.cur, nm))
+                        if ty == "int64_t" and not ptr:
+                            env["loopdecl"].add(nm)
+                        elif ty == "double" and ptr:
+                            env["decl_ptr"].add(nm)
+                        elif ty == "double":
+                            env["decl_scalar"].add(nm)
+                        else:
+                            raise Unsupported("%s: declaration of %r" % (self.cur, nm))
+                    if self.peek() == ("op", ","):
+                        self.eat()
+                        continue
+                    self.eat("op", ";")
+                    break
+                continue
+            if (k, v) == ("id", "for"):
+                self.eat()
+                self.eat("op", "(")
+                var = self.eat("id")
+                if var not in env["loopdecl"]:
+                    raise Unsupported("%s: loop variable %r is not a declared int64_t local" % (self.cur, var))
+                self.eat("op", "=")
+                self.eat("int", "0")
+                self.eat("op", ";")
+                self.eat("id", var)
+                self.eat("op", "<")
+                bound = self.iexpr(env)
+                self.eat("op", ";")
+                self.eat("id", var)
+                self.eat("op", "++")
+                self.eat("op", ")")
+                self.eat("op", "{")
+                cv = loopvar(depth)
+                inner = dict(env, ints=dict(env["ints"]))
+                inner["ints"][var] = Poly.var(cv)
+                body = self.block(inner, depth + 1)
+                self.eat("op", "}")
+                out.append(("for", cv, bound, body))
+                continue
+            if (k, v) == ("id", "if"):
+                self.eat()
+                self.eat("op", "(")
+                if self.peek() == ("op", "!"):
+                    self.eat()
+                    self.eat("op", "(")
+                    c = self.cond(env)
+                    self.eat("op", ")")
+                    self.eat("op", ")")
+                    self.eat("op", "{")
+                    self.eat("id", "continue")
+                    self.eat("op", ";")
+                    self.eat("op", "}")
+                    if len(c) != 1:
+                        raise Unsupported("%s: negated conjunction before continue" % self.cur)
+                    out.append(("guard", c))
+                    continue
+                c = self.cond(env)
+                self.eat("op", ")")
+                self.eat("op", "{")
+                body = self.block(env, depth)
+                self.eat("op", "}")
+                if self.peek() == ("id", "else"):
+                    raise Unsupported("%s: else branch" % self.cur)
+                out.append(("if", c, body))
+                continue
+            if k == "id" and v == "free":
+                self.eat(); self.eat("op", "("); self.eat("id"); self.eat("op", ")"); self.eat("op", ";")
+                continue
+            if k == "id":
+                name = self.eat()
+                # helper call
+                if self.peek() == ("op", "("):
+                    d = self.static_def(name, "void")
+                    if d is None:
+                        raise Unsupported("%s: call of %r (not a static void helper of this file)" % (self.cur, name))
+                    hp = self.parse_params(name, d[0])
+                    self.eat()
+                    henv = dict(ints={}, ptrs={}, dbl={}, flags={}, decl_scalar=set(), decl_ptr=set(), decl_int=set(), loopdecl=set())
+                    for n, (pn, pk) in enumerate(hp):
+                        if n:
+                            self.eat("op", ",")
+                        if pk in ("outarr", "arr", "iarr"):
+                            root, off = self.pexpr(env)
+                            if pk == "outarr" and not root.startswith(("out:", "loc:")):
+                                raise Unsupported("%s: %s passes a read-only array as output" % (self.cur, name))
+                            henv["ptrs"][pn] = (root, off)
+                        elif pk == "nat":
+                            henv["ints"][pn] = self.iexpr(env)
+                        elif pk == "double":
+                            e = self.dexpr(env)
+                            if self.reads_mutable(e):
+                                raise Unsupported("%s: scalar argument of %s reads a mutable array" % (self.cur, name))
+                            henv["dbl"][pn] = e
+                        else:
+                            a = self.eat("id")
+                            if a not in env["flags"]:
+                                raise Unsupported("%s: int argument %r of %s" % (self.cur, a, name))
+                            henv["flags"][pn] = env["flags"][a]
+                    self.eat("op", ")")
+                    self.eat("op", ";")
+                    out += self.parse_body(name, d[1], henv, depth)
+                    continue
+                ix = None
+                if self.peek() == ("op", "["):
+                    if name not in env["ptrs"]:
+                        raise Unsupported("%s: assignment to %r[...]" % (self.cur, name))
+                    self.eat()
+                    ix = self.iexpr(env)
+                    self.eat("op", "]")
+                k2, op = self.peek()
+                if (k2, op) not in (("op", "="), ("op", "+=")):
+                    raise Unsupported("%s: statement %r %r" % (self.cur, name, op))
+                self.eat()
+                if ix is None and name in env["decl_ptr"] | set(b for b in ()):  # pointer local (or malloc)
+                    if op != "=":
+                        raise Unsupported("%s: pointer arithmetic assignment to %r" % (self.cur, name))
+                    if self.peek() == ("id", "NULL"):
+                        self.eat(); self.eat("op", ";")
+                        continue
+                    if self.peek() == ("op", "(") and self.peek(1) == ("id", "double") and self.peek(2) == ("op", "*"):
+                        for tk in (("op", "("), ("id", "double"), ("op", "*"), ("op", ")"), ("id", "malloc"), ("op", "("), ("id", "sizeof"), ("op", "("),
+                                   ("id", "double"), ("op", ")"), ("op", "*")):
+                            self.eat(*tk)
+                        size = self.iexpr(env)
+                        self.eat("op", ")")
+                        self.eat("op", ";")
+                        cn = "buf%d" % len(self.bufs)
+                        self.bufs.append(cn)
+                        self.bufsize[cn] = size
+                        env["ptrs"][name] = ("loc:" + cn, Poly())
+                        continue
+                    env["ptrs"][name] = self.pexpr(env)
+                    self.eat("op", ";")
+                    continue
+                if ix is None:
+                    if name not in env["decl_scalar"]:
+                        raise Unsupported("%s: assignment to %r" % (self.cur, name))
+                    if op != "=":
+                        raise Unsupported("%s: accumulation into the scalar local %r" % (self.cur, name))
+                    e = self.dexpr(env)
+                    self.eat("op", ";")
+                    if self.reads_mutable(e):
+                        raise Unsupported("%s: scalar %r assigned from a mutable array" % (self.cur, name))
+                    env["dbl"][name] = e
+                    continue
+                root, off = env["ptrs"][name]
+                if not root.startswith(("out:", "loc:")):
+                    raise Unsupported("%s: assignment to the read-only array %r" % (self.cur, name))
+                e = self.dexpr(env)
+                self.eat("op", ";")
+                idx = off + ix
+                if op == "+=":
+                    e = ("bin", "+", ("idx", root, idx), e)
+                    self.note_slot(e, idx)
+                out.append(("assign", root, idx, e))
+                continue
+            raise Unsupported("%s: statement starting with %s %r" % (self.cur, k, v))
+
+    def note_slot(self, e, idx):
+        def calls(x, acc):
+            if x[0] == "call":
+                acc.append(x[1])
+                for a in x[2]:
+                    if a[0] != "flag":
+                        calls(a, acc)
+            elif x[0] == "bin":
+                calls(x[2], acc); calls(x[3], acc)
+            elif x[0] == "neg":
+                calls(x[1], acc)
+            return acc
+        cs = calls(e, [])
+        if len(cs) == 1:
+            self.slot.setdefault(cs[0], set()).add(idx.const_term())
+
+    @staticmethod
+    def apply_guards(stmts):
+        for n, st in enumerate(stmts):
+            if st[0] == "guard":
+                rest = CanonProc.apply_guards(stmts[n + 1:])
+                return stmts[:n] + ([("if", st[1], rest)] if rest else [])
+        return stmts
+
+    # ---------------- normalisation
+    def mentions(self, conds, var):
+        def m(e):
+            if e[0] == "idx":
+                return var in e[2].vars()
+            if e[0] == "bin":
+                return m(e[2]) or m(e[3])
+            if e[0] == "neg":
+                return m(e[1])
+            if e[0] == "call":
+                return any(a[0] != "flag" and m(a) for a in e[2])
+            return False
+        return any(m(c[1]) or m(c[2]) for c in conds)
+
+    def norm_block(self, stmts):
+        out = []
+        for st in stmts:
+            if st[0] == "for":
+                out.append(("for", st[1], st[2], self.norm_block(st[3])))
+            elif st[0] == "if":
+                out += self.norm_if(st[1], self.norm_block(st[2]))
+            else:
+                out.append(st)
+        return out
+
+    def norm_if(self, conds, body):
+        if len(body) == 1 and body[0][0] == "for" and not self.mentions(conds, body[0][1]):
+            f = body[0]
+            return [("for", f[1], f[2], self.norm_if(conds, f[3]))]
+        if len(body) == 1 and body[0][0] == "if":
+            return self.norm_if(conds + body[0][1], body[0][2])
+        return [("if", conds, body)]
+
+    # ---------------- printing
+    def order(self):
+        return [loopvar(d) for d in range(12)] + self.natorder
+
+    def fname(self, cname):
+        return self.rename.get(cname, cname)
+
+    def pe(self, e):
+        if e[0] == "num":
+            return "(%d : α)" % e[1]
+        if e[0] == "var":
+            return e[1]
+        if e[0] == "idx":
+            root = e[1]
+            ix = e[2].show(self.order())
+            kind, nm = root.split(":", 1)
+            return "(%s %s)" % (nm if kind in ("arr", "iarr") else "s." + nm, ix if re.fullmatch(r"\w+", ix) else "(" + ix + ")")
+        if e[0] == "bin":
+            return "(%s %s %s)" % (self.pe(e[2]), e[1], self.pe(e[3]))
+        if e[0] == "neg":
+            return "(-%s)" % self.pe(e[1])
+        if e[0] == "call":
+            return "(%s E %s)" % (self.fname(e[1]), " ".join(a[1] if a[0] == "flag" else self.pe(a) for a in e[2]))
+        raise Unsupported("cannot print %r" % (e,))
+
+    def pc(self, conds):
+        return " ∧ ".join("%s < %s" % (self.pe(c[1]), self.pe(c[2])) for c in conds)
+
+    def emit(self):
+        # canonical names of the mode functions: by the slot their value is added to
+        self.rename = {}
+        if len(self.calls) == len(FUNCS) and all(len(self.slot.get(c, ())) == 1 for c in self.calls) and \
+                sorted(next(iter(self.slot[c])) for c in self.calls) == list(range(len(FUNCS))):
+            for c in self.calls:
+                self.rename[c] = FUNCS[next(iter(self.slot[c]))]
+        elif set(self.calls) != set(FUNCS):
+            raise Unsupported("%s: cannot identify the three mode functions (called: %s; slots: %s)" % (self.name, self.calls, self.slot))
+        kinds = {"outarr": "Nat → α", "arr": "Nat → α", "iarr": "Nat → α", "nat": "Nat", "double": "α", "int": "Int"}
+        self.psig = "".join(" (%s : %s)" % (n, kinds[k]) for n, k in self.params if k != "outarr")
+        self.pargs = "".join(" " + n for n, k in self.params if k != "outarr")
+        self.loops = []
+        self.counter = 0
+        top = self.emit_block(self.ast, [], 1)
+        struct = ["structure %s_St (α : Type) where" % self.name, "  %s : Nat → α" % self.out] + ["  %s : Nat → α" % b for b in self.bufs] + [""]
+        return struct, top
+
+    def emit_block(self, stmts, encl, ind):
+        out = []
+        pad = "  " * ind
+        for st in stmts:
+            if st[0] == "for":
+                self.counter += 1
+                nm = "%s_for%d" % (self.name, self.counter)
+                slot = len(self.loops)
+                self.loops.append(None)
+                body = self.emit_block(st[3], encl + [st[1]], 2)
+                sig = "".join(" (%s : Nat)" % e for e in encl)
+                self.loops[slot] = ("def %s (E : ThermalEnv α)%s%s (s : %s_St α) : %s_St α :=\n  CLoop.forN (%s) (fun %s s =>\n%s\n    s) s"
+                                    % (nm, self.psig, sig, self.name, self.name, st[2].show(self.order()), st[1], "\n".join(body)))
+                out.append("%slet s := %s E%s%s s" % (pad, nm, self.pargs, "".join(" " + e for e in encl)))
+            elif st[0] == "if":
+                out.append("%slet s := if %s then" % (pad, self.pc(st[1])))
+                out += self.emit_block(st[2], encl, ind + 1)
+                out.append("%s  s" % pad)
+                out.append("%selse s" % pad)
+            elif st[0] == "assign":
+                kind, nm = st[1].split(":", 1)
+                out.append("%slet s := { s with %s := CLoop.upd s.%s (%s) %s }" % (pad, nm, nm, st[2].show(self.order()), self.pe(st[3])))
+            else:
+                raise Unsupported("cannot print statement %r" % (st[0],))
+        return out
+
+
 def kb_literal(src):
     m = re.search(r"^#define\s+KB\s+(\S+)\s*$", src, re.M)
     if not m:
@@ -742,26 +1407,27 @@ def generate_units(repo):
 def generate(repo):
     csrc = strip_comments(open(os.path.join(repo, "c", "phonopy.c")).read())
     lit = kb_literal(csrc)
+    cp = CanonProc(csrc, PROC)
+    struct, top = cp.emit()
+    cname = {v: k for k, v in cp.rename.items()} if cp.rename else {f: f for f in FUNCS}
     fdefs, ints = [], set()
     for f in FUNCS:
-        d, i = translate_function(csrc, f)
+        d, i = translate_function(csrc, cname[f], lean_name=f)
         fdefs.append(d)
         ints |= i
-    known = {}
-    for f in FUNCS:
-        ps, _ = find_function(csrc, f)
-        known[f] = [re.fullmatch(r"\s*const\s+(double|int)\s+\w+\s*", q).group(1) for q in ps.split(",")]
-    pp, struct, top, outarr = translate_procedure(csrc, PROC, known)
     classes = "[Add α] [Sub α] [Mul α] [Div α] [Neg α]" + "".join(" [OfNat α %d]" % n for n in sorted(ints))
-    pclasses = "[LT α] [∀ a b : α, Decidable (a < b)]" + "".join(" [OfNat α %d]" % n for n in sorted(pp.ints - ints))
+    pclasses = "[LT α] [∀ a b : α, Decidable (a < b)]" + "".join(" [OfNat α %d]" % n for n in sorted(cp.ints - ints))
     L = []
     L.append("import PhononModel.Model.ThermalEnv")
     L.append("import PhononModel.Model.CLoop")
     L.append("import PhononModel.Gen.ThermalUnits")
     L.append("/-!")
-    L.append("GENERATED by tools/cexpr2lean.py from c/phonopy.c (get_free_energy, get_entropy,")
-    L.append("get_heat_capacity, #define KB) — do not edit; regenerated by every `./check C10` run.")
-    L.append("libm calls and the macro KB are fields of `ThermalEnv`; loops are `CLoop.forN` over a state record.")
+    L.append("GENERATED by tools/cexpr2lean.py from c/phonopy.c — do not edit; regenerated by every `./check C10` run.")
+    L.append("Entry point `%s`; the static mode functions are found through its call graph and named by the output" % PROC)
+    L.append("slot their value is added to (0: get_free_energy, 1: get_entropy, 2: get_heat_capacity; C names here: %s)." % ", ".join(cname[f] for f in FUNCS))
+    L.append("libm calls and the macro KB are fields of `ThermalEnv`; loops are `CLoop.forN` over a state record; the loop nest is")
+    L.append("printed in the normal form described in tools/cexpr2lean.py (helpers inlined, pure locals substituted, guards merged,")
+    L.append("index polynomials sorted, loop variables i j k by depth, malloc'd arrays buf0 …).")
     L.append("-/")
     L.append("set_option linter.unusedVariables false")
     L.append("namespace PhononModel.ThermalC")
@@ -772,20 +1438,20 @@ def generate(repo):
     for d in fdefs:
         L.append(d)
         L.append("")
-    L.append("/-! `%s`: mutable objects of the procedure (output array, malloc'd arrays, scalar locals) -/" % PROC)
+    L.append("/-! `%s`: mutable objects of the procedure (output array, malloc'd arrays) -/" % PROC)
     L += struct
     L.append("variable %s" % pclasses)
     L.append("")
-    for d in reversed(pp.loops):
+    for d in reversed(cp.loops):
         L.append(d)
         L.append("")
-    uninit = "".join(" (%s_uninit : Nat → α)" % a for a in pp.larrs) + "".join(" (%s_uninit : α)" % f for f in pp.scalars)
-    L.append("/-- the procedure: value of `%s[]` on return (sequential semantics; `malloc`ed / uninitialised" % outarr)
-    L.append("objects start with the arbitrary contents `*_uninit`; sizes: %s) -/" % ", ".join("%s[%s]" % (a, z) for a, z in pp.malloc.items()))
-    L.append("def %s (E : ThermalEnv α) (%s : Nat → α)%s%s : Nat → α :=" % (PROC, outarr, pp.psig, uninit))
-    L.append("  let s : %s_St α := { %s }" % (PROC, ", ".join(["%s := %s" % (outarr, outarr)] + ["%s := %s_uninit" % (a, a) for a in pp.larrs] + ["%s := %s_uninit" % (f, f) for f in pp.scalars])))
+    uninit = "".join(" (%s_uninit : Nat → α)" % a for a in cp.bufs)
+    L.append("/-- the procedure: value of `%s[]` on return (sequential semantics; `malloc`ed arrays start with the" % cp.out)
+    L.append("arbitrary contents `*_uninit`; sizes: %s) -/" % ", ".join("%s[%s]" % (a, cp.bufsize[a].show(cp.order())) for a in cp.bufs))
+    L.append("def %s (E : ThermalEnv α) (%s : Nat → α)%s%s : Nat → α :=" % (PROC, cp.out, cp.psig, uninit))
+    L.append("  let s : %s_St α := { %s }" % (PROC, ", ".join(["%s := %s" % (cp.out, cp.out)] + ["%s := %s_uninit" % (a, a) for a in cp.bufs])))
     L += top
-    L.append("  s.%s" % outarr)
+    L.append("  s.%s" % cp.out)
     L.append("")
     L.append("end")
     L.append("")
